@@ -51,11 +51,12 @@ func mergeHeaders(into, from http.Header) {
 	}
 }
 
-// mergeMetadataHeaders merges an error's metadata into the headers of the
-// response that carries the error. The metadata may be the HTTP headers of a
-// response received from another server (the Meta of an error returned by one
-// of our clients): what those said about the framing and encoding of that
-// response's body must not describe ours.
+// mergeMetadataHeaders merges an error's metadata, or the headers of a
+// Response, into the headers of the HTTP response that carries them. Either
+// may be the HTTP headers of a response received from another server (the
+// Meta of an error, or a Response, returned by one of our clients and passed
+// on): what those said about the framing and encoding of that response's body
+// must not describe ours.
 func mergeMetadataHeaders(into, from http.Header) {
 	for k, vals := range from {
 		if isFramingHeader(k) {
